@@ -115,6 +115,24 @@ def apply(op: str, x: Any, y: Any) -> Any:
     return x / y
 
 
+ARITH = (decimal.DecimalException, ZeroDivisionError)
+
+
+def read_value(x: Any, res: Result) -> tuple:
+    """('ok', value) / ('skip', None) when ordinary arithmetic on the printed text fails too (division by zero ...) / ('bad', None) when only
+    the library fails: the value of an expression the reference can evaluate must be readable."""
+    text = O.print_text(x)
+    try:
+        ref = evaluate(text)
+    except ARITH:
+        return 'skip', None
+    try:
+        return 'ok', x.value
+    except ARITH as e:
+        res.bad(f'value-raised:{type(e).__name__}', f'reading the value of {text!r} raised {e!r}; ordinary arithmetic gives {ref!r}')
+        return 'bad', None
+
+
 def run_case(case: dict) -> Result:
     res = Result()
     classes = set()
@@ -146,9 +164,12 @@ def run_case(case: dict) -> Result:
         text = O.print_text(cur)
         try:
             ref = evaluate(text)
-            got = cur.value
-        except (decimal.DecimalException, ZeroDivisionError):
+        except ARITH:
             return Result(discard=True)
+        st, got = read_value(cur, res)
+        if st != 'ok':
+            res.classes = sorted(classes)
+            return res if st == 'bad' else Result(discard=True)
         if got != ref:
             res.bad('value', f'{text!r}.value == {got!r}, ordinary arithmetic gives {ref!r}')
             res.classes = sorted(classes)
@@ -188,8 +209,15 @@ def run_case(case: dict) -> Result:
                 if form == 'inplace' and vt == 'attached':
                     continue  # a refusal (C19)
                 classes.add('operand:' + vt)
-            a0 = cur.value
-            b0 = operand.value if hasattr(operand, 'value') else (decimal.Decimal(operand) if operand is not None else None)
+            st, a0 = read_value(cur, res)
+            if st != 'ok':
+                break
+            if hasattr(operand, 'raw_number_add_expr'):
+                st, b0 = read_value(operand, res)
+                if st != 'ok':
+                    break
+            else:
+                b0 = operand.value if hasattr(operand, 'value') else (decimal.Decimal(operand) if operand is not None else None)
             # the reference arithmetic is decimal whatever the library hands back (a number written as an int may read as an int)
             bad_type = next((x for x in (a0, b0) if x is not None and not isinstance(x, (int, decimal.Decimal))), None)
             if bad_type is not None:
@@ -253,11 +281,17 @@ def run_case(case: dict) -> Result:
             applied += 1
             what = f'({text!r}) {form} {op} {o.get("v", "")!r}'
             try:
-                rv = r.value
                 rtext = O.print_text(r)
                 rev = evaluate(rtext)
+            except ARITH:
+                break
+            st, rv = read_value(r, res)
+            if st != 'ok':
+                break
+            try:
                 rparsed = common.parser().parse(rtext, models.NumberExpr).value
-            except (decimal.DecimalException, ZeroDivisionError):
+            except ARITH as e:
+                res.bad(f'value-raised:{type(e).__name__}', f'{what}: the result prints {rtext!r}; re-parsed, reading its value raised {e!r} (ordinary arithmetic: {rev!r})')
                 break
             except Exception as e:  # noqa: BLE001
                 res.bad(f'result-unusable:{key}:{type(e).__name__}', f'{what}: reading the result back raised {e!r}')
